@@ -162,6 +162,21 @@ Theorem C10_concurrent_linearizable : forall ct n progs sched,
 Proof. exact concurrent_linearizable. Qed.
 Print Assumptions C10_concurrent_linearizable.
 
+(* the sequential reference of (9) is itself cache-transparent: in the sequential run of ANY list
+   of operations (calls, defmethod, remove-method proper, the two readers) every call answers the
+   cache-free semantics on the method table of that moment - which, inside the guard, is the
+   specification (C10_call_pure_eq_spec). With (9): every concurrent call is answered as S demands
+   on the method table at its place in the lock order. *)
+Theorem C10_sequential_reference_cache_transparent : forall ct n, 1 <= n -> forall ops a,
+  Forall (wf_cop ct n) ops -> Inv ct n a -> snd (crun ct a ops) = cpure ct a ops.
+Proof. exact crun_cache_transparent. Qed.
+Print Assumptions C10_sequential_reference_cache_transparent.
+
+Theorem C10_call_pure_eq_spec : forall ct n tbl cs v,
+  wf_tbl n tbl -> Forall (wf_cls ct) cs -> guard ct tbl cs -> pure_call ct tbl cs v = spec_call ct tbl cs v.
+Proof. exact pure_call_eq_spec. Qed.
+Print Assumptions C10_call_pure_eq_spec.
+
 (* the sequential reference of (9) removes with remove-method proper; Model.remove_method (find-method,
    then remove-method when found) is the same function wherever find-method answers true *)
 Theorem C10_remove_raw_is_remove : forall a q k,
